@@ -251,6 +251,7 @@ struct St {
     hold: Vec<u64>,
     file_points: u64,
     file_holds: u64,
+    natural: bool,
     joins: u64,
     rescued: u64,
     in_call: Vec<Option<u32>>,
@@ -705,7 +706,13 @@ impl St {
         match &spec.policy {
             // (a yield under a scripted schedule: follow the list if it has an entry here, else let somebody else run -
             // staying would spin forever on whatever the yielding thread is waiting for)
-            Policy::Replay if kind == Kind::Yield => self.decide_replay(spec, me, pos, true).or(stay),
+            Policy::Replay if kind == Kind::Yield => {
+                // A recorded run passed this point without handing over if the list goes on with a later position of
+                // this same thread. While the call is within its natural length the replay does the same (the yield is
+                // the spin guard or a file operation, not a thread waiting for somebody); beyond that it lets others run.
+                let natural = self.natural;
+                self.decide_replay(spec, me, pos, !natural).or(stay)
+            }
             Policy::Replay => self.decide_replay(spec, me, pos, must_leave),
             Policy::Serial => {
                 if must_leave {
@@ -807,6 +814,10 @@ impl St {
                         return Some(me);
                     }
                     let to = self.dec(head.to);
+                    if to == me {
+                        // marker: the recorded run stayed here
+                        return Some(me);
+                    }
                     if to < n && to != me && self.eligible(to) {
                         return Some(to);
                     }
@@ -950,6 +961,11 @@ impl Shared {
         st.parked_site[me] = site;
         st.cur_call[me] = call_no;
         let tick32 = tick.min(u32::MAX as u64) as u32;
+        // is this call still within the length its isolated evaluation had (then a yield is not a thread spinning for somebody)
+        st.natural = match st.in_call[me] {
+            Some(e) => tick <= 2 * self.pool.entries[e as usize].ticks as u64 + 10_000,
+            None => false,
+        };
         let next = st.decide(self.spec, me, (call_no, tick32), kind);
         if st.kill_now {
             st.log.u64(0xD1ED_0000 | me as u64);
@@ -1031,7 +1047,15 @@ impl Shared {
                     st = self.cv[me].wait(st).unwrap();
                 }
             }
-            Some(_) => {}
+            Some(_) => {
+                // A yield at which the run stayed although other threads exist (they were held back after a file
+                // operation, or in a timed wait whose timer the scheduler did not fire): a replay has neither holds nor
+                // unfired timers and would hand over here. The list gets a marker (to = the thread itself).
+                if kind == Kind::Yield && self.spec.policy != Policy::Replay && (0..st.done.len()).any(|i| i != me && !st.done[i] && (st.hold[i] > st.calls || st.deadline[i].is_some())) {
+                    let em = st.enc(me);
+                    st.rec.push(Sw { thread: em, call: call_no, tick: tick32, to: em });
+                }
+            }
             None => {
                 match kind {
                     Kind::Exit => {
@@ -1425,6 +1449,7 @@ pub fn run_child(pool: &Pool, spec: &RunSpec) -> ! {
         hold: vec![0; cap],
         file_points: 0,
         file_holds: 0,
+        natural: false,
         joins: 0,
         rescued: 0,
         in_call: vec![None; cap],
